@@ -7,6 +7,7 @@ import (
 
 // TMerc is a transverse Mercator projection.
 func TMerc(this *SR) (forward, inverse Transformer, err error) {
+	this.defaultOrigin()
 
 	e0 := e0fn(this.Es)
 	e1 := e1fn(this.Es)
